@@ -642,6 +642,12 @@ Definition headroom_checked (d : Z) (tc : nat) : option Z :=
   | None => None
   end.
 
+(* the per-thread share of arc_swap for W = i64, by the form of the source (Gen/ArcSwapGen.v:
+   arcswap_share_in_W): divided in W = the exact truncating quotient, or through f64 *)
+Definition share_i64 (in_W : bool) : Z -> nat -> option Z := if in_W then headroom_quot else headroom_f64.
+(* what the runs use: the f64 form only where it is the exact quotient (cross-check) *)
+Definition share_i64_run (in_W : bool) : Z -> nat -> option Z := if in_W then headroom_quot else headroom_checked.
+
 (* never more than a 1/tc share of a headroom, never a positive share of a negative one *)
 Definition hr_ok (cf : config) : Prop :=
   forall d h, cf_hr cf d (cf_tc cf) = Some h ->
